@@ -371,19 +371,31 @@ def closed_extent(P, rep, rule="G2.extent"):
         common = set.intersection(*sets) if sets else set()
         rels = set()
         poly = None
+        # roles instead of names: the depth argument, and the locals initialised from `S.constant_value ? bound : S.local_value(...)`
+        roles = {F.params[2]: "depth"}
+        for v in F.walk():
+            if v.get("k") == "VarDecl" and v.get("c") and sc(v["c"][0]).get("k") == "ConditionalOperator":
+                c0 = sc(sc(v["c"][0])["c"][0])
+                if c0.get("k") == "MemberExpr" and c0.get("n") == "constant_value" and c0.get("c"):
+                    side = sc(c0["c"][0]).get("n", "")[:3]
+                    if side in ("min", "max"):
+                        roles[v["r"]] = side + "_depth_local"
+        sub = norm.Subst(bind=roles)
         for a, i in common:
             c = info[a][1]
             if c is None or i != 0:
                 continue
             for x in F.walk(c):
                 if x.get("k") == "BinaryOperator" and x.get("op") in ("<=", ">=", "<", ">"):
-                    l, r, op = norm.render(P, x["c"][0], nocast=True), norm.render(P, x["c"][1], nocast=True), x["op"]
+                    l, r, op = norm.render(P, x["c"][0], nocast=True, subst=sub), norm.render(P, x["c"][1], nocast=True, subst=sub), x["op"]
                     if op in (">", ">="):
                         l, r, op = r, l, {">": "<", ">=": "<="}[op]
                     rels.add("%s %s %s" % (l, op, r))
                 if x.get("k") == "CallExpr" and P.d(x.get("callee")).get("qn", "").endswith("polygon_contains_point"):
                     poly = x
         if fname == "Plume":
+            import re as _re
+            rels = {_re.sub(r"^\w+ <= (1\.0|1\.|1)$", "relative_distance_from_center <= 1.0", r_) if not r_.startswith("depth") else r_ for r_ in rels}
             need = {"depth <= max_depth", "min_depth <= depth", "relative_distance_from_center <= 1.0"}
             alt = {"relative_distance_from_center <= 1.0": ("relative_distance_from_center <= 1", "relative_distance_from_center <= 1.")}
         else:
